@@ -63,6 +63,8 @@ def gen_program(rng, M, style):
         cs = rng.choice([(Fraction(1), Fraction(3)), (Fraction(2), Fraction(3)), (Fraction(1, 2), Fraction(3, 2)), (Fraction(3), Fraction(-1))])
         m, step = 1, [2 if cs[0].denominator == 2 else 1]
         used = [Fraction(0)]
+        ctx = ["g1"] + (["g2"] if n >= 2 else [])                 # no fixed-angle gates in this family
+        ops = devsim.random_circuit(rng, n, M, rng.randint(1, 3), ctx)
         forced = [(rng.choice(["RX", "RY"]), cs[0]), ("RZ", cs[1])]
         n_enc = 2
     if style == "constfirst":     # a fixed-angle rotation in front of encoding gates with different spectra
